@@ -29,6 +29,7 @@ func runSeq(content []byte, final string, maxCalls int) (calls []seqCall, rest [
 	}()
 	base := &scriptedReader{rest: append([]byte{}, content...), final: finalOf(final), w: &recWriter{}}
 	var r io.Reader = base
+	remain := len(content)
 	for i := 0; i < maxCalls; i++ {
 		w := &recWriter{}
 		base.w = w
@@ -44,6 +45,14 @@ func runSeq(content []byte, final string, maxCalls int) (calls []seqCall, rest [
 		if c.err == "eof" || strings.HasPrefix(c.err, "fail") || c.err == "noprogress" {
 			rest = suffix
 			return
+		}
+		if now := len(suffix) + len(base.rest); now >= remain {
+			// a call that returned no error must have consumed something: the documented loop would spin
+			calls = append(calls, seqCall{snap: "nil", err: "STUCK"})
+			rest = suffix
+			return
+		} else {
+			remain = now
 		}
 		r = io.MultiReader(bytes.NewReader(suffix), r)
 	}
